@@ -242,9 +242,10 @@ def main():
                 b0 = baseline.get(okey)
                 if isinstance(b0, int):
                     b0 = [b0, 0.0]
-                if b0 and b0[0] > 0 and b0[1] <= 3.0:
-                    # an obligation that is discharged on the unchanged tree in well under a tenth of the solver
-                    # budget and can no longer be discharged: reported as failed, without a model
+                if b0 and b0[0] > 0 and b0[1] <= 5.0:
+                    # an obligation that is discharged on the unchanged tree in at most a third of the solver budget and can
+                    # no longer be discharged (z3 in a fresh process, z3 in-process and cvc5 all gave up): reported as
+                    # failed, without a model
                     violations.append({"engine": "pyvc", "fn": o["fn"], "obligation": o["name"], "model": {"no_model": "solver gave up without a model: " + reason, "baseline": "discharged on the unchanged tree"}, "path": o["path"]})
                 else:
                     undecided.append({"fn": o["fn"], "why": "obligation %s: %s (%s; %s)" % (o["name"], o["status"], o["backend"], reason)})
